@@ -4,7 +4,7 @@ use std::{
     sync::Arc,
 };
 
-use flate2::bufread::{GzDecoder, GzEncoder};
+use flate2::bufread::{GzEncoder, MultiGzDecoder};
 use zarrs_metadata::codec::GZIP;
 use zarrs_plugin::{MetadataConfiguration, PluginCreateError};
 
@@ -113,7 +113,8 @@ impl BytesToBytesCodecTraits for GzipCodec {
         _decoded_representation: &BytesRepresentation,
         _options: &CodecOptions,
     ) -> Result<RawBytes<'a>, CodecError> {
-        let mut decoder = GzDecoder::new(Cursor::new(encoded_value));
+        // A gzip file is a series of members (RFC 1952): decode all of them, as numcodecs / Python's gzip module do
+        let mut decoder = MultiGzDecoder::new(Cursor::new(encoded_value));
         let mut out: Vec<u8> = Vec::new();
         decoder.read_to_end(&mut out)?;
         Ok(Cow::Owned(out))
